@@ -159,10 +159,33 @@ Fixpoint append_all (d : store) (items : list (str * value)) : store * option er
 (* ------------------------------------------------------------------ *)
 (* the response object                                                 *)
 (* ------------------------------------------------------------------ *)
+(* the cookie jar (_cookies): name -> (value, coded value, morsel attributes).
+   An attribute is kept as (lower-case key, the fragment Morsel.OutputString renders
+   for it, e.g. Path=/p or Secure, or the empty text when it renders nothing); the rendering
+   itself is http.cookies' and external to the model (the operation carries it). *)
+Definition cattrs := list (str * str).
+Definition cjar := list (str * (str * str * cattrs)).
+
+Fixpoint cjar_put (name s coded : str) (j : cjar) : cjar :=
+  match j with
+  | [] => [(name, (s, coded, []))]
+  | (k, (s0, c0, a0)) :: r =>
+    if str_eqb name k then (k, (s, coded, a0)) :: r            (* Morsel.set keeps the attributes *)
+    else (k, (s0, c0, a0)) :: cjar_put name s coded r
+  end.
+
+Fixpoint cjar_attr (name key frag : str) (j : cjar) : cjar :=
+  match j with
+  | [] => []
+  | (k, (s0, c0, a0)) :: r =>
+    if str_eqb name k then (k, (s0, c0, assoc_set key frag a0)) :: r
+    else (k, (s0, c0, a0)) :: cjar_attr name key frag r
+  end.
+
 Record rstate := mkR {
   st_code : Z;            (* _status_code; 0 stands for None *)
   st_store : store;       (* _headers *)
-  st_jar : list (str * (str * str))     (* _cookies: name -> (value, coded value) *)
+  st_jar : cjar           (* _cookies *)
 }.
 
 (* response.py:134 status setter, integer argument *)
@@ -182,20 +205,58 @@ Definition init_run (status : Z) (hdrs more : list (str * value)) : rstate * opt
       end
     end.
 
-(* plain set_cookie(name, value) (no secret, no options): Cookie.v *)
-Definition plain_set_cookie (j : list (str * (str * str))) (name value : str) :=
-  set_cookie unit (fun _ _ => []) (fun _ _ => []) j name (CStr value) None.
+(* one keyword option of set_cookie, after max_age/expires conversion *)
+Record copt := mkO {
+  o_key : str;                (* the key with '_' replaced by '-' *)
+  o_val : option value;       (* the value after timedelta / http_date conversion; None = the conversion raised *)
+  o_frag : str                (* what Morsel.OutputString renders for it (external) *)
+}.
 
-Fixpoint set_cookies (j : list (str * (str * str))) (cs : list (str * str))
-  : list (str * (str * str)) * option err :=
+Definition serr_err (e : serr) : err :=
+  match e with SECookieError => ECookieError | SETypeError => ETypeError | _ => EValueError end.
+
+(* the value part of set_cookie(name, value) (no secret): Cookie.v *)
+Definition cookie_value_set (j : cjar) (name value : str) : cjar + err :=
+  match set_cookie unit (fun _ _ => []) (fun _ _ => []) [] name (CStr value) None with
+  | inl ((_, (s, coded)) :: _) => inl (cjar_put name s coded j)
+  | inl [] => inl j
+  | inr e => inr (serr_err e)
+  end.
+
+(* response.py:233 the option loop; [checked] = the loop passes every value through
+   _hval before storing it (fix F35; the harness reads from the source whether it does) *)
+Fixpoint apply_opts (checked : bool) (name : str) (j : cjar) (opts : list copt) : cjar * option err :=
+  match opts with
+  | [] => (j, None)
+  | o :: r =>
+    match o_val o with
+    | None => (j, Some EWriter)
+    | Some v =>
+      match (if checked then hval v else HOk []) with
+      | HOk _ =>
+        if is_reserved (o_key o)                               (* Morsel.__setitem__ *)
+        then apply_opts checked name (cjar_attr name (lower (o_key o)) (o_frag o) j) r
+        else (j, Some ECookieError)
+      | h => (j, Some (herr h))
+      end
+    end
+  end.
+
+(* response.py:187 set_cookie(name, value, **options) *)
+Definition set_cookie_opts (checked : bool) (j : cjar) (name value : str) (opts : list copt)
+  : cjar * option err :=
+  match cookie_value_set j name value with
+  | inr e => (j, Some e)
+  | inl j1 => apply_opts checked name j1 opts
+  end.
+
+Fixpoint set_cookies (j : cjar) (cs : list (str * str)) : cjar * option err :=
   match cs with
   | [] => (j, None)
   | (n, v) :: r =>
-    match plain_set_cookie j n v with
+    match cookie_value_set j n v with
     | inl j' => set_cookies j' r
-    | inr SECookieError => (j, Some ECookieError)
-    | inr SETypeError => (j, Some ETypeError)
-    | inr _ => (j, Some EValueError)
+    | inr e => (j, Some e)
     end
   end.
 
@@ -210,14 +271,35 @@ Inductive op :=
 | OExpires (w : option value)                    (* response.expires = x ; w = http_date(x), None = it raised *)
 | OInit (status : Z) (hdrs more : list (str * value))         (* response.__init__(status=, headers=, **more) *)
 | OApply (status : Z) (hdrs more : list (str * value)) (cookies : list (str * str))
-                                                 (* HTTPResponse(status=, headers=, **more) [+ set_cookie] .apply(response) *)
-| OSetCookie (name value : str)                  (* response.set_cookie(name, value) *)
-| OStatus (code : Z).                            (* response.status = code *)
+                                                 (* HTTPResponse / HTTPError(...) [+ set_cookie] .apply(response) *)
+| OSetCookie (name value : str) (checked : bool) (opts : list copt)
+                                                 (* response.set_cookie(name, value, **options) / delete_cookie *)
+| OStatus (code : Z)                             (* response.status = code (or a status line parsing to code) *)
+| OPop (k : str) (with_default : bool)           (* response.headers.pop(k[, None]) *)
+| OPopItem                                       (* response.headers.popitem() *)
+| OClearNames (names : list str)                 (* response.headers.clear(name, ...) *)
+| ODelProp (p : nat)                             (* del response.content_type / content_length / expires *)
+| OStatusBad.                                    (* response.status = a string the setter refuses *)
 
 Definition with_store (s : rstate) (r : store + err) : rstate * option err :=
   match r with
   | inl d => (mkR (st_code s) d (st_jar s), None)
   | inr e => (s, Some e)
+  end.
+
+Definition prop_name (p : nat) : str :=
+  match p with O => L "Content-Type" | S O => L "Content-Length" | _ => L "Expires" end.
+
+Definition del_key (s : rstate) (k : str) : rstate * option err :=
+  match sget k (st_store s) with
+  | Some _ => (mkR (st_code s) (sdel k (st_store s)) (st_jar s), None)
+  | None => (s, Some EKeyError)
+  end.
+
+Fixpoint clear_names (d : store) (names : list str) : store :=
+  match names with
+  | [] => d
+  | n :: r => clear_names (sdel n d) r             (* if n in self: del self[n] *)
   end.
 
 Definition step (s : rstate) (o : op) : rstate * option err :=
@@ -226,10 +308,7 @@ Definition step (s : rstate) (o : op) : rstate * option err :=
   | OAppend k v => with_store s (h_append (st_store s) k v)
   | OSetDefault k v => with_store s (h_setdefault (st_store s) k v)
   | OUpdate items => (mkR (st_code s) (h_update (st_store s) items) (st_jar s), None)
-  | ODel k => match sget k (st_store s) with
-              | Some _ => (mkR (st_code s) (sdel k (st_store s)) (st_jar s), None)
-              | None => (s, Some EKeyError)
-              end
+  | ODel k => del_key s k
   | OClear => (mkR (st_code s) [] (st_jar s), None)
   | OProp p v => with_store s (h_setitem (st_store s)
                                  (if p then L "Content-Length" else L "Content-Type") v)
@@ -247,13 +326,20 @@ Definition step (s : rstate) (o : op) : rstate * option err :=
         (mkR (st_code src) (st_store src) (match j with [] => st_jar s | _ => j end), None)
       end
     end
-  | OSetCookie n v =>
-    match set_cookies (st_jar s) [(n, v)] with
-    | (j, None) => (mkR (st_code s) (st_store s) j, None)
-    | (_, Some e) => (s, Some e)
-    end
+  | OSetCookie n v checked opts =>
+    let (j, e) := set_cookie_opts checked (st_jar s) n v opts in
+    (mkR (st_code s) (st_store s) j, e)                      (* an exception leaves what was stored before it *)
   | OStatus code => if status_ok code then (mkR code (st_store s) (st_jar s), None)
                     else (s, Some EValueError)
+  | OPop k true => (mkR (st_code s) (sdel k (st_store s)) (st_jar s), None)
+  | OPop k false => del_key s k
+  | OPopItem => match rev (st_store s) with
+                | [] => (s, Some EKeyError)
+                | _ :: r => (mkR (st_code s) (rev r) (st_jar s), None)
+                end
+  | OClearNames names => (mkR (st_code s) (clear_names (st_store s) names) (st_jar s), None)
+  | ODelProp p => del_key s (prop_name p)
+  | OStatusBad => (s, Some EValueError)
   end.
 
 Definition init_state : rstate := mkR Gen.default_status [] [].      (* Response() *)
@@ -262,6 +348,52 @@ Fixpoint run (s : rstate) (ops : list op) : rstate :=
   match ops with
   | [] => s
   | o :: r => run (fst (step s o)) r
+  end.
+
+(* ---- a response and its copy (response.py:94 BaseResponse.copy) ----
+   copy = cls(status=self.status, headers=self.headers.copy().dict): every stored
+   value goes through append/_hval again (a multi-valued header makes copy() raise
+   TypeError); the cookies are re-parsed from their own output in sorted key order
+   (Cookie.v: mjar_copy; names starting with '$' and option values outside the
+   cookie-token alphabet are not modelled here). *)
+Fixpoint cjar_insert (e : str * (str * str * cattrs)) (j : cjar) : cjar :=
+  match j with
+  | [] => [e]
+  | e' :: r => if str_ltb (fst e') (fst e) then e' :: cjar_insert e r else e :: j
+  end.
+Definition cjar_sort (j : cjar) : cjar := fold_right cjar_insert [] j.
+
+Definition copy_of (s : rstate) : rstate + err :=
+  match init_run (st_code s) (st_store s) [] with
+  | (c, None) => inl (mkR (st_code c) (st_store c) (cjar_sort (st_jar s)))
+  | (_, Some e) => inr e
+  end.
+
+Inductive pop :=
+| POn (on_copy : bool) (o : op)        (* the operation on the original / on the copy *)
+| PCopy.                               (* copy = response.copy(HTTPResponse) *)
+
+Definition pstate := (rstate * option rstate)%type.
+
+(* new state, exception, skipped (operation on a copy that does not exist yet) *)
+Definition pstep (st : pstate) (p : pop) : pstate * option err * bool :=
+  let '(r, c) := st in
+  match p with
+  | POn false o => let (r', e) := step r o in ((r', c), e, false)
+  | POn true o => match c with
+                  | None => (st, None, true)
+                  | Some cs => let (c', e) := step cs o in ((r, Some c'), e, false)
+                  end
+  | PCopy => match copy_of r with
+             | inl cs => ((r, Some cs), None, false)
+             | inr e => (st, Some e, false)
+             end
+  end.
+
+Fixpoint prun (st : pstate) (ps : list pop) : pstate :=
+  match ps with
+  | [] => st
+  | p :: r => prun (fst (fst (pstep st p))) r
   end.
 
 (* ------------------------------------------------------------------ *)
@@ -330,6 +462,28 @@ Fixpoint emit_store (d : store) : hlres :=
     end
   end.
 
+(* Morsel.OutputString: key=coded, then the attributes in sorted key order *)
+Fixpoint attrs_insert (e : str * str) (a : cattrs) : cattrs :=
+  match a with
+  | [] => [e]
+  | e' :: r => if str_ltb (fst e') (fst e) then e' :: attrs_insert e r else e :: a
+  end.
+Definition attrs_sort (a : cattrs) : cattrs := fold_right attrs_insert [] a.
+Definition frag_text (e : str * str) : str :=
+  match snd e with [] => [] | f => 59 :: 32 :: f end.
+Definition cookie_output (name coded : str) (a : cattrs) : str :=
+  output_string name coded ++ flat_map frag_text (attrs_sort a).
+
+Fixpoint emit_cjar (j : cjar) : option (list str) :=
+  match j with
+  | [] => Some []
+  | (name, (_, coded, a)) :: r =>
+    match transcode (cookie_output name coded a), emit_cjar r with
+    | Some h, Some t => Some (h :: t)
+    | _, _ => None
+    end
+  end.
+
 Definition has_key (k : str) (d : store) : bool := match sget k d with Some _ => true | None => false end.
 
 Definition visible (cs : bool) (s : rstate) : store :=
@@ -349,7 +503,7 @@ Definition headerlist_cs (cs : bool) (s : rstate) : hlres :=
   match emit_store headers with
   | HLOk out =>
     let out := if need_ctype then out ++ [(L "Content-Type", Gen.default_content_type)] else out in
-    match emit_cookies (st_jar s) with
+    match emit_cjar (st_jar s) with
     | Some cs => HLOk (out ++ List.map (fun c => (L "Set-Cookie", c)) cs)
     | None => HLEncodeError
     end
@@ -391,6 +545,18 @@ Definition dec_ss (l : list Z) : option ((str * str) * list Z) :=
   | None => None
   end.
 
+(* key ; 0 | 1 value ; fragment *)
+Definition dec_copt (l : list Z) : option (copt * list Z) :=
+  match dec_str l with
+  | Some (k, 0%Z :: r) => match dec_str r with Some (f, r') => Some (mkO k None f, r') | None => None end
+  | Some (k, _ :: r) =>
+    match dec_value r with
+    | Some (v, r1) => match dec_str r1 with Some (f, r') => Some (mkO k (Some v) f, r') | None => None end
+    | None => None
+    end
+  | _ => None
+  end.
+
 Definition dec_op (l : list Z) : option (op * list Z) :=
   match l with
   | 0%Z :: r => match dec_kv r with Some ((k, v), r') => Some (OSet k v, r') | None => None end
@@ -425,8 +591,30 @@ Definition dec_op (l : list Z) : option (op * list Z) :=
       end
     | None => None
     end
-  | 10%Z :: r => match dec_ss r with Some ((k, v), r') => Some (OSetCookie k v, r') | None => None end
+  | 10%Z :: chk :: r =>
+    match dec_ss r with
+    | Some ((k, v), r1) => match dec_list dec_copt r1 with
+                           | Some (os, r2) => Some (OSetCookie k v (negb (Z.eqb chk 0)) os, r2)
+                           | None => None
+                           end
+    | None => None
+    end
   | 11%Z :: c :: r => Some (OStatus c, r)
+  | 12%Z :: d :: r => match dec_str r with Some (k, r') => Some (OPop k (negb (Z.eqb d 0)), r') | None => None end
+  | 13%Z :: r => Some (OPopItem, r)
+  | 14%Z :: r => match dec_list dec_str r with Some (ns, r') => Some (OClearNames ns, r') | None => None end
+  | 15%Z :: p :: r => Some (ODelProp (Z.to_nat p), r)
+  | 16%Z :: r => Some (OStatusBad, r)
+  | _ => None
+  end.
+
+Definition dec_pop (l : list Z) : option (pop * list Z) :=
+  match l with
+  | 0%Z :: oc :: r => match dec_op r with
+                      | Some (o, r') => Some (POn (negb (Z.eqb oc 0)) o, r')
+                      | None => None
+                      end
+  | 1%Z :: r => Some (PCopy, r)
   | _ => None
   end.
 
@@ -444,16 +632,40 @@ Definition enc_hl (h : hlres) : list Z :=
   | HLEncodeError => [2%Z]
   end.
 
-(* after every operation: the exception (0 = none), the status code and the header list *)
-Fixpoint run_obs (s : rstate) (ops : list op) : list Z :=
-  match ops with
+Definition enc_atom (a : atom) : list Z :=
+  match a with
+  | ANone => [0%Z]
+  | AStr s => 1%Z :: enc_str s
+  | AInt z => [2%Z; z]
+  | AFloat s => 3%Z :: enc_str s
+  | ABool b => 4%Z :: enc_bool b
+  | ABytes => [5%Z]
+  | AOther => [6%Z]
+  end.
+
+Definition enc_value (v : value) : list Z :=
+  match v with
+  | VAtom a => enc_atom a
+  | VList l => 7%Z :: enc_list enc_atom l
+  end.
+
+(* what is observed of one response: status code, headers.items(), headerlist *)
+Definition enc_rstate (s : rstate) : list Z :=
+  st_code s :: enc_list (fun '(k, v) => enc_str k ++ enc_value v) (st_store s) ++ enc_hl (headerlist s).
+
+Definition enc_pstate (st : pstate) : list Z :=
+  enc_rstate (fst st) ++ match snd st with None => [0%Z] | Some c => 1%Z :: enc_rstate c end.
+
+(* after every operation: the exception (0 = none, 7 = skipped) and both responses *)
+Fixpoint run_obs (st : pstate) (ps : list pop) : list Z :=
+  match ps with
   | [] => []
-  | o :: r => let (s', e) := step s o in
-              enc_err e :: st_code s' :: enc_hl (headerlist s') ++ run_obs s' r
+  | p :: r => let '(st', e, skipped) := pstep st p in
+              (if skipped then 7%Z else enc_err e) :: enc_pstate st' ++ run_obs st' r
   end.
 
 Definition corr_C14 (inp : list Z) : list Z :=
-  match dec_list dec_op inp with
-  | Some (ops, _) => enc_hl (headerlist init_state) ++ run_obs init_state ops
+  match dec_list dec_pop inp with
+  | Some (ps, _) => enc_pstate (init_state, None) ++ run_obs (init_state, None) ps
   | None => bad_input
   end.
